@@ -830,10 +830,12 @@ def decide(prop, tier, seed):
     sel = [re.compile(x) for x in pinfo.get("select", [])]
     exc = [re.compile(x) for x in pinfo.get("exclude", [])]
     ign = [re.compile(x) for x in pinfo.get("ignore", [])]   # functions of a shared unit outside this property's call tree
+    ignored_fns = set()
     for r in results:
         for f in r["failures"]:
             oid = obligation_id(r["unit"]["name"], f)
             if any(x.search(oid) for x in ign):
+                ignored_fns.add((r["unit"]["name"], f.get("function")))
                 continue
             if (sel and not any(x.search(oid) for x in sel)) or any(x.search(oid) for x in exc):
                 reasons.append(f"obligation of another property fails in a shared unit: {oid} (this property's clauses are then only proved relative to it)")
@@ -879,6 +881,10 @@ def decide(prop, tier, seed):
     wall = time.time() - t0
     # ---- evidence
     ev = build_evidence(prop, pinfo, tier, seed, results, canaries, mutant_results, bounded, violations, known_hits, reasons, wall)
+    if ignored_fns:
+        # functions of shared units that are outside this property's call tree are not its obligations
+        ev["coverage"]["obligations"] -= len(ignored_fns)
+        ev["coverage"]["failing_functions_outside_this_property"] = sorted(f"{u}/{fn}" for u, fn in ignored_fns)
     ev["coverage"]["witness_runs"] = witness_runs
     with open(os.path.join(VERIF, "evidence", f"{prop}.json"), "w") as f:
         json.dump(ev, f, indent=1)
